@@ -1,5 +1,6 @@
 // U7: src/write.rs -- the ZipWriter state machine (C01, C02, C08, C09, C11, C12, C13, C14, C17)
 use vstd::prelude::*;
+use vstd::std_specs::convert::IntoSpec;
 use std::borrow::Cow;
 use vstd::std_specs::iter::IteratorSpec;
 verus! {
@@ -145,6 +146,7 @@ fn shim_zw_write_all<W: Write + io::Seek>(w: &mut ZipWriter<W>, buf: &[u8]) -> (
     ensures
         zw_wf(final(w)) && (zw_room(final(w)) || zw_faulted(final(w)) || final(w).inner is Closed),
         final(w).files@.len() == old(w).files@.len(),
+        old(w).files@.len() > 0 ==> entry_identity_kept(old(w).files@.last(), final(w).files@.last()),
         forall|i: int| 0 <= i < old(w).files@.len() - 1 ==> final(w).files@[i] == old(w).files@[i],
         final(w).writing_to_file == old(w).writing_to_file && final(w).writing_to_extra_field == old(w).writing_to_extra_field
             && final(w).writing_to_central_extra_field_only == old(w).writing_to_central_extra_field_only
@@ -168,6 +170,7 @@ fn shim_zw_write_u16<W: Write + io::Seek>(w: &mut ZipWriter<W>, v: u16) -> (r: i
     ensures
         zw_wf(final(w)) && (zw_room(final(w)) || zw_faulted(final(w)) || final(w).inner is Closed),
         final(w).files@.len() == old(w).files@.len(),
+        old(w).files@.len() > 0 ==> entry_identity_kept(old(w).files@.last(), final(w).files@.last()),
         final(w).writing_to_file == old(w).writing_to_file && final(w).writing_to_extra_field == old(w).writing_to_extra_field
             && final(w).writing_to_central_extra_field_only == old(w).writing_to_central_extra_field_only
             && final(w).writing_raw == old(w).writing_raw && final(w).comment == old(w).comment,
